@@ -357,6 +357,15 @@ func forged(c *common.Ctx, r *common.Rand) error {
 		name string
 		body []byte
 	}
+	// whole-database files (first id 1, no predecessor): what the node has is replaced, so on the forwarding
+	// endpoint they extend nothing unless the database is still at position 0
+	whole := func(max uint64, im *lfs.Image) []byte {
+		pages := map[uint32][]byte{}
+		for i, b := range im.Pages {
+			pages[uint32(i+1)] = b
+		}
+		return buildLTX(uint32(ps), uint32(len(im.Pages)), 1, max, 0, im.Checksum(), pages, 777)
+	}
 	corrupt := good(pos.TXID+1, pos.TXID+1, pos.Chk)
 	corrupt[ltx.HeaderSize+20] ^= 0x40
 	cases := []tc{
@@ -367,6 +376,9 @@ func forged(c *common.Ctx, r *common.Rand) error {
 		{"range-overlapping-by-two", good(pos.TXID-1, pos.TXID+1, pos.Chk)},
 		{"range-from-one-without-being-a-snapshot", good(1, pos.TXID+1, pos.Chk)},
 		{"range-with-a-gap", good(pos.TXID+2, pos.TXID+3, pos.Chk)},
+		{"whole-database-file-ending-below-the-position", whole(pos.TXID-1, after)},
+		{"whole-database-file-ending-at-the-position", whole(pos.TXID, after)},
+		{"whole-database-file-ending-beyond-the-position", whole(pos.TXID+1, after)},
 		{"wrong-pre-checksum", good(pos.TXID+1, pos.TXID+1, pos.Chk^0x55)},
 		{"corrupt-body", corrupt},
 		{"truncated", good(pos.TXID+1, pos.TXID+1, pos.Chk)[:ltx.HeaderSize+30]},
@@ -420,7 +432,7 @@ func forged(c *common.Ctx, r *common.Rand) error {
 		}
 	}
 	// ---- the same on the replication stream: a replica connected to a primary that offers bad files ----
-	for _, t := range []tc{cases[0], cases[1], cases[6], cases[7]} {
+	for _, t := range []tc{cases[0], cases[1], cases[9], cases[10], {name: "corrupt-snapshot"}} {
 		if err := badStream(c, r, dir, t.name, ps); err != nil {
 			return err
 		}
@@ -478,6 +490,14 @@ func badStream(c *common.Ctx, r *common.Rand, base, name string, ps int) error {
 		body = mk(pos.TXID, pos.Chk)
 	case "wrong-pre-checksum":
 		body = mk(pos.TXID+1, pos.Chk^0x55)
+	case "corrupt-snapshot":
+		// a whole-database file (what a replica that needs a snapshot is sent) whose body does not verify
+		pages := map[uint32][]byte{}
+		for i, b := range after.Pages {
+			pages[uint32(i+1)] = b
+		}
+		body = buildLTX(uint32(ps), uint32(len(after.Pages)), 1, pos.TXID+1, 0, after.Checksum(), pages, 4242)
+		body[ltx.HeaderSize+40] ^= 0x40
 	default: // corrupt body with an extending header: explored, reported separately (recovery is C05's subject)
 		body = mk(pos.TXID+1, pos.Chk)
 		body[ltx.HeaderSize+20] ^= 0x40
@@ -537,7 +557,7 @@ func badStream(c *common.Ctx, r *common.Rand, base, name string, ps int) error {
 	c.Evaluations++
 	c.Distinct("bad-stream:" + name)
 	rep := map[string]any{"kind": "bad-stream", "name": name}
-	if name == "corrupt-body" {
+	if name == "corrupt-body" || name == "corrupt-snapshot" {
 		// the header extends the position but the body does not verify: must be rejected without
 		// modifying the database, its position or its log, and the node must be able to restart
 		c.Count("bad_stream_corrupt_body_exits", len(exits))
@@ -555,11 +575,11 @@ func badStream(c *common.Ctx, r *common.Rand, base, name string, ps int) error {
 		_ = s2.Close()
 		switch {
 		case reopenErr != nil:
-			c.Violate("C06:bad-stream:corrupt-body:cannot-restart", fmt.Sprintf("a stream file with a valid extending header and a corrupt body was stored before verification (Exit calls %v); the node then fails to restart: %v", exits, reopenErr), rep)
+			c.Violate("C06:bad-stream:"+name+":cannot-restart", fmt.Sprintf("a stream file with a valid header and a corrupt body was stored before verification (Exit calls %v); the node then fails to restart: %v", exits, reopenErr), rep)
 		case !before.equal(afterSt) || !before.equal(st2):
-			c.Violate("C06:bad-stream:corrupt-body:changed", fmt.Sprintf("a stream file with a corrupt body changed the replica (Exit calls %v): before %+v after %+v after-restart %+v", exits, before, afterSt, st2), rep)
+			c.Violate("C06:bad-stream:"+name+":changed", fmt.Sprintf("a stream file with a corrupt body changed the replica (Exit calls %v): before %+v after %+v after-restart %+v", exits, before, afterSt, st2), rep)
 		case len(exits) > 0:
-			c.Violate("C06:bad-stream:corrupt-body:exit", fmt.Sprintf("a stream file with a corrupt body made the replica call Exit(%v)", exits), rep)
+			c.Violate("C06:bad-stream:"+name+":exit", fmt.Sprintf("a stream file with a corrupt body made the replica call Exit(%v)", exits), rep)
 		}
 		return nil
 	}
